@@ -812,6 +812,7 @@ class AsyncFIXConnection:
             )
             return
         is_valid_msg_num = False
+        misplaced_gap_fill = False
         try:
             assert self._connection_state >= ConnectionState.NETWORK_CONN_ESTABLISHED
 
@@ -838,7 +839,15 @@ class AsyncFIXConnection:
             if msg.msg_type == FMsg.LOGON:
                 await self._process_logon(msg)
             elif msg.msg_type == FMsg.SEQUENCERESET:
-                await self._process_seqreset(msg)
+                if msg.get(FTag.GapFillFlag, None) == "Y" and (
+                    int(msg[FTag.MsgSeqNum]) != self._session.next_num_in
+                    or int(msg.get(FTag.NewSeqNo, 0)) <= int(msg[FTag.MsgSeqNum])
+                ):
+                    # a gap fill fills forward from the expected number: one that is
+                    #  numbered ahead is itself behind a gap, a stale one is ignored
+                    misplaced_gap_fill = True
+                else:
+                    await self._process_seqreset(msg)
             elif msg.msg_type == FMsg.LOGOUT:
                 if int(msg[FTag.MsgSeqNum]) == self._session.next_num_in:
                     # the session ends here, count the Logout() itself first
@@ -851,6 +860,8 @@ class AsyncFIXConnection:
 
             msg_seq_num = int(msg[FTag.MsgSeqNum])
             is_valid_msg_num = await self._check_seqnum_gaps(msg_seq_num)
+            if misplaced_gap_fill:
+                is_valid_msg_num = False
 
             if msg.msg_type == FMsg.RESENDREQUEST:
                 await self._process_resend(msg)
